@@ -5,12 +5,14 @@ ID = "C17"
 AREA = "c17"
 LEAN_PROPS = "Litep2pVerif.Props.C17"
 THEOREMS = ["store_bounds", "default_config_bounds", "no_expired_record", "no_expired_provider", "ttl_monotone",
-            "reannounce_in_place", "providers_closest_step", "providers_closest", "record_store_refines_map", "put_then_get"]
+            "reannounce_in_place", "reannounce_renews_expiry", "providers_closest_step", "providers_closest", "record_store_refines_map", "put_then_get"]
 CONSTS = ["DEFAULT_MAX_RECORDS", "DEFAULT_MAX_RECORD_SIZE_BYTES", "DEFAULT_MAX_PROVIDER_KEYS",
           "DEFAULT_MAX_PROVIDER_ADDRESSES", "DEFAULT_MAX_PROVIDERS_PER_KEY"]
 MANIFEST = {
     "text": "Lean 4 theorems (store_bounds by induction over all operation histories and all configurations; "
             "default_config_bounds on the regenerated constants; no_expired_record/provider, ttl_monotone, reannounce_in_place, "
+            "reannounce_renews_expiry (a re-announcement stores the new record as a whole: the provider stays returned, with "
+            "the new addresses, until the LAST announcement's time + ttl and is not returned from then on), "
             "providers_closest_step; record_store_refines_map + put_then_get: the record half refines a finite map with an explicit "
             "admission rule, every key's content after put/get/provider operations) about an executable model of MemoryStore, plus a seeded correspondence run of the real "
             "MemoryStore against the model's executable definitions and a specification-level oracle. A pure data structure: "
@@ -29,7 +31,10 @@ CONST_TABLE = [
     ("DEFAULT_MAX_PROVIDER_ADDRESSES", _CFG, r"const DEFAULT_MAX_PROVIDER_ADDRESSES: usize = ([^;]+);", 30),
     ("DEFAULT_MAX_PROVIDERS_PER_KEY", _CFG, r"const DEFAULT_MAX_PROVIDERS_PER_KEY: usize = ([^;]+);", 20),
 ]
-RULE = ("seeded operation histories (cfg; put/get/putprov/provs/putlocal/rmlocal over 4 colliding keys, 8 providers, "
+RULE = ("seeded operation histories (cfg; put/get/putprov/provs/putlocal/rmlocal/adv over 4 colliding keys, 8 providers, "
+        "a logical clock the store reads through a cfg-guarded hook and `adv` moves; every 10th case announce -> part of the "
+        "ttl passes -> re-announce with other addresses (remote provider or the local refresh) -> read between the first and "
+        "the second expiry (boundaries included) -> read after the last expiry, and the same for a record's explicit expiry; "
         "expired/unexpired/no expiry, more keys and providers than the bounds; final sweep reading every key) run on "
         "the real MemoryStore and on the Lean model; a case is non-trivial if at least one put/putprov was accepted and "
         "one was refused or evicted; distinct = distinct (ops, observations) transcripts by SHA-256")
@@ -38,9 +43,11 @@ TRUSTED_BASE = ["Lean 4.33 kernel", "axioms: propext, Classical.choice, Quot.sou
                 "adapter /repo/src/verif/c17.rs, harness, verif.py, checks/c17.py",
                 "std binary_search_by modelled by its specification on strictly sorted input (sortedness is a proved invariant)",
                 "SHA-256/XOR distance computed outside the model (Python hashlib) and passed as an input",
-                "std::time::Instant replaced by logical time (clock fixed at 1000; future = hours, past = milliseconds)"]
+                "std::time::Instant::now() inside store.rs reads crate::verif::store_now under --cfg litep2p_verif (one `use … as std` "
+                "line in store.rs; the real clock unless the c17 adapter pinned a logical instant): logical time starts at 1000, "
+                "moves only by `adv`, future = hours, past = milliseconds"]
 ASSUMPTIONS = ["HashMap iteration order is never observable through the MemoryStore API",
-               "a case takes far less than one hour of real time"]
+               "every clock read of MemoryStore is a textual `std::time::Instant::now()` in store.rs (the hook shadows the name)"]
 KEEP_PREFIX = 1
 NOW = 1000
 LOCAL = 0
